@@ -1,0 +1,12 @@
+//go:build verif
+// +build verif
+
+package distributed
+
+// VerifSetClock replaces the package clock used to stamp local changes (build tag verif) and
+// returns the previous one. The harness uses it for per-node logical clocks with chosen offsets.
+func VerifSetClock(f func() int64) func() int64 {
+	old := clock
+	clock = f
+	return old
+}
